@@ -96,7 +96,23 @@ type c19State struct {
 	batchStmt []context.Context // contexts of the statement calls of that letter
 }
 
+// c19Params is what every C19 client sends at start-up: names in mixed case, two names that differ only in case
+var c19Params = []string{"user", "alice", "DateStyle", "ISO, MDY", "TimeZone", "Europe/Amsterdam", "extra_float_digits", "2", "Extra_Float_Digits", "3"}
+
+func c19Startup() []byte { return pgproto.Startup(c19Params...) }
+
 func (s *c19State) checkCtx(ctx context.Context, where string) {
+	if cp := wire.ClientParameters(ctx); cp != nil {
+		for i := 0; i+1 < len(c19Params); i += 2 {
+			if v, ok := cp[wire.ParameterStatus(c19Params[i])]; !ok || v != c19Params[i+1] {
+				s.problems = append(s.problems, fmt.Sprintf("%s: the client sent %s=%q, ClientParameters = %v", where, c19Params[i], c19Params[i+1], cp))
+				break
+			}
+		}
+		if len(cp) != len(c19Params)/2 {
+			s.problems = append(s.problems, fmt.Sprintf("%s: the client sent %d parameters, ClientParameters = %v", where, len(c19Params)/2, cp))
+		}
+	}
 	for i := 1; i <= s.cfg.M; i++ {
 		if v, _ := ctx.Value(mwKey(i)).(string); v != fmt.Sprintf("set-by-mw%d", i) {
 			s.problems = append(s.problems, fmt.Sprintf("%s: context lacks the value added by middleware %d", where, i))
@@ -164,7 +180,7 @@ func c19RunCancelMeanwhile(n int, auth bool) explore.Result {
 	}
 	defer srv.Stop()
 	a := srv.Connect()
-	a.Step(pgproto.Startup("user", "alice"))
+	a.Step(c19Startup())
 	if auth {
 		a.Step(pgproto.Password("pw"))
 	}
@@ -291,7 +307,7 @@ func c19RunFault(cfg c19Config, hist []c19Letter, k int) explore.Result {
 	rec.Conn = mc
 	one := &harness.One{Server: srv, Conn: srv.ConnectWith(mc)}
 	defer one.Stop()
-	out, status := one.Step(pgproto.Startup("user", "alice"))
+	out, status := one.Step(c19Startup())
 	if !strings.HasSuffix(harness.Kinds(out), "Z") || status != memnet.Parked {
 		res.Engine = "startup failed: " + harness.Kinds(out)
 		return res
@@ -341,7 +357,7 @@ func c19Run(cfg c19Config, hist []c19Letter, oneSegment bool) explore.Result {
 	rec.Conn = mc
 	one := &harness.One{Server: srv, Conn: srv.ConnectWith(mc)}
 	defer one.Stop()
-	out, status := one.Step(pgproto.Startup("user", "alice"))
+	out, status := one.Step(c19Startup())
 	if cfg.Auth {
 		var o2 []byte
 		o2, status = one.Step(pgproto.Password("pw"))
@@ -742,7 +758,7 @@ func c19RunServer(cfg c19Config, nconn int) explore.Result {
 	defer srv.Stop()
 	for c := 1; c <= nconn; c++ {
 		conn := srv.Connect()
-		out, _ := conn.Step(pgproto.Startup("user", "alice"))
+		out, _ := conn.Step(c19Startup())
 		if !strings.HasSuffix(harness.Kinds(out), "Z") {
 			res.Fail("startup", fmt.Sprintf("connection %d: startup reply %q", c, harness.Kinds(out)))
 			return res
